@@ -65,3 +65,5 @@ Lemma tie_scalar_func_names : gen_scalar_func_names = scalar_func_names.
 Proof. reflexivity. Qed.
 Lemma tie_kernel_reducers : gen_kernel_reducers = kernel_reducers.
 Proof. reflexivity. Qed.
+Lemma tie_direct_reducers : gen_direct_reducers = direct_reducers.
+Proof. reflexivity. Qed.
